@@ -201,11 +201,15 @@ func (s *selectForUpdateExecutor) doExecContext(ctx context.Context, f exec.Call
 		ResourceId: s.execContext.TxCtx.ResourceID,
 		LockKeys:   lockKey,
 	})
-	if err != nil {
-		return nil, err
-	}
-
-	if !lockable {
+	if err != nil || !lockable {
+		// the business result set is still open on this connection: it has to be closed before the
+		// caller can roll back to the savepoint (or roll back) and so release the local row locks
+		if result != nil && result.GetRows() != nil {
+			_ = result.GetRows().Close()
+		}
+		if err != nil {
+			return nil, err
+		}
 		return nil, lockConflictError
 	}
 
